@@ -654,7 +654,7 @@ func (e *Enc) encodeInstr(fr *frame, b *ssa.BasicBlock, idx int, in ssa.Instruct
 	case *ssa.Lookup:
 		e.encodeLookup(st, x)
 	case *ssa.UnOp:
-		e.encodeUnOp(st, x)
+		e.encodeUnOp(fr, st, x)
 	case *ssa.BinOp:
 		e.encodeBinOp(st, x)
 	case *ssa.Store:
@@ -671,6 +671,13 @@ func (e *Enc) encodeInstr(fr *frame, b *ssa.BasicBlock, idx int, in ssa.Instruct
 			return
 		}
 		e.nilCheck(st, addr.T, "store", x.Pos())
+		if fa, ok := x.Addr.(*ssa.FieldAddr); ok {
+			if fn := e.growOnlyFieldAddr(fa); fn != "" {
+				// guarantee side of grow-only: the field is only ever initialised
+				c := e.W.fieldComp(fa.X.Type().Underlying().(*types.Pointer).Elem(), fa.Field)
+				e.oblige(st, "grow-only", e.anchor(x.Pos(), "reassignment of grow-only field "+fn), sEq(app("select", e.heapVar(st, c), e.val(fa.X).T), "0"), x.Pos())
+			}
+		}
 		if e.W.structInfo(pt) != nil {
 			e.storeStruct(st, addr.T, pt, e.asTerm(v))
 			return
@@ -934,7 +941,7 @@ func (e *Enc) encodeMapUpdate(st *bstate, x *ssa.MapUpdate) {
 	e.assume(st.reach, sEq(nl, app("store", ol, m, sIte(was, app("select", ol, m), app("+", app("select", ol, m), "1")))))
 }
 
-func (e *Enc) encodeUnOp(st *bstate, x *ssa.UnOp) {
+func (e *Enc) encodeUnOp(fr *frame, st *bstate, x *ssa.UnOp) {
 	switch x.Op {
 	case token.MUL: // load
 		addr := e.val(x.X)
@@ -976,8 +983,7 @@ func (e *Enc) encodeUnOp(st *bstate, x *ssa.UnOp) {
 			e.setVal(x, Val{T: app("-", app("-", v), "1")})
 		}
 	case token.ARROW:
-		e.note("channel receive (not modelled)")
-		e.havocAll(st, "recv")
+		e.syncHavoc(fr, st, x.X, "recv")
 		if x.CommaOk {
 			e.setVal(x, e.freshVal(st, x.Type(), "recv"))
 		} else {
@@ -1795,4 +1801,95 @@ func (e *Enc) locksDominate(x *CExpr, ret *ssa.Return) bool {
 		}
 	}
 	return true
+}
+
+
+// syncHavoc: what a blocking receive makes visible. If the channel was made in this function
+// and every goroutine this function spawns has a contract with a frame, only those frames
+// can have changed (plus whatever is modelled at Lock operations); otherwise everything is
+// havocked.
+func (e *Enc) syncHavoc(fr *frame, st *bstate, ch ssa.Value, why string) {
+	local := func(v ssa.Value) bool {
+		seen := map[ssa.Value]bool{}
+		var ok func(v ssa.Value) bool
+		ok = func(v ssa.Value) bool {
+			if seen[v] {
+				return true
+			}
+			seen[v] = true
+			switch x := v.(type) {
+			case *ssa.MakeChan:
+				return true
+			case *ssa.Const:
+				return x.IsNil()
+			case *ssa.Phi:
+				for _, ed := range x.Edges {
+					if !ok(ed) {
+						return false
+					}
+				}
+				return true
+			case *ssa.ChangeType:
+				return ok(x.X)
+			case *ssa.UnOp: // load of a local variable holding the channel
+				if x.Op == token.MUL {
+					if al, isAl := x.X.(*ssa.Alloc); isAl {
+						for _, r := range *al.Referrers() {
+							if stv, isSt := r.(*ssa.Store); isSt && stv.Addr == al && !ok(stv.Val) {
+								return false
+							}
+						}
+						return true
+					}
+				}
+			}
+			return false
+		}
+		return ok(v)
+	}
+	var comps []string
+	known := !fr.inlined && local(ch)
+	if known {
+		for _, b := range fr.fn.Blocks {
+			for _, in := range b.Instrs {
+				g, isGo := in.(*ssa.Go)
+				if !isGo {
+					continue
+				}
+				callee := g.Call.StaticCallee()
+				var c *Contract
+				if callee != nil && !g.Call.IsInvoke() {
+					c = e.P.contractFor(callee)
+				}
+				if c == nil || !c.HasMod {
+					known = false
+					break
+				}
+				for _, m := range c.Modifies {
+					if strings.HasPrefix(m, "onlyfresh(") {
+						known = false
+						break
+					}
+					if i := strings.Index(m, "@"); i >= 0 {
+						m = strings.TrimSpace(m[:i])
+					}
+					comps = append(comps, e.resolveCompSpecPkg(m, c.Pkg)...)
+				}
+			}
+		}
+	}
+	if !known {
+		e.note("channel receive (not modelled)")
+		e.havocAll(st, why)
+		return
+	}
+	e.note("channel receive: frames of the goroutines spawned here havocked")
+	for _, cn := range comps {
+		if c := e.W.comps[cn]; c != nil {
+			if e.curWrite != nil {
+				e.curWrite[cn] = true
+			}
+			e.newHeapVersion(st, c)
+		}
+	}
 }
